@@ -35,6 +35,9 @@ def asU32 (x : Nat) : Nat := x % 4294967296
 /-- a value of Rust type `u32` produced by a checked operation -/
 def u32 (x : Nat) : Chk Nat := if x < 4294967296 then .ok x else .panic
 
+/-- a value of Rust type `usize` (64 bit) produced by a checked operation on unsigned operands -/
+def usize (x : Nat) : Chk Nat := if x < 18446744073709551616 then .ok x else .panic
+
 /-- `str::len` of the text: number of UTF-8 bytes -/
 def utf8Len : List Char → Nat
   | [] => 0
@@ -78,7 +81,7 @@ def Tok.advance (t : Tok) (bytes : Nat) : Chk Tok :=
   match advanceGo t.rest bytes (t.line, t.col) with
   | none => .panic
   | some (rest, lc) =>
-    match Chk.usize ((t.offset : Int) + (bytes : Int)) with
+    match usize (t.offset + bytes) with
     | .panic => .panic
     | .ok off => .ok ⟨rest, lc.1, lc.2, off⟩
 
@@ -208,27 +211,34 @@ def binarySearch (keys : List Nat) (target : Nat) : Except Nat Nat :=
   let i := (keys.takeWhile (· < target)).length
   if keys[i]? = some target then .ok i else .error i
 
+/-- the shared body of `get_line` / `get_span`: the run that contains instruction `idx`
+    (`Ok(i) => &tbl[i]`, `Err(0) => return None`, `Err(i) => &tbl[i - 1]`) -/
+def lookupRun {α : Type} (first : α → Nat) (tbl : List α) (idx : Nat) : Chk (Option α) :=
+  match binarySearch (tbl.map first) idx with
+  | .ok i => match Chk.index tbl i with
+    | .panic => .panic
+    | .ok l => .ok (some l)
+  | .error 0 => .ok none
+  | .error (i + 1) => match Chk.index tbl i with
+    | .panic => .panic
+    | .ok l => .ok (some l)
+
 /-- `Instructions::get_line` -/
 def Instrs.getLine (s : Instrs) (idx : Nat) : Chk (Option Nat) :=
-  match binarySearch (s.lineInfos.map (·.first)) idx with
-  | .ok i => match Chk.index s.lineInfos i with
-    | .panic => .panic
-    | .ok l => .ok (some l.line)
-  | .error 0 => .ok none
-  | .error (i + 1) => match Chk.index s.lineInfos i with
-    | .panic => .panic
-    | .ok l => .ok (some l.line)
+  match lookupRun LineInfo.first s.lineInfos idx with
+  | .panic => .panic
+  | .ok none => .ok none
+  | .ok (some l) => .ok (some l.line)
+
+/-- `(loc.span != Span::default()).then_some(loc.span)` -/
+def Span.nonDefault (sp : Span) : Option Span := if sp != Span.default then some sp else none
 
 /-- `Instructions::get_span` -/
 def Instrs.getSpan (s : Instrs) (idx : Nat) : Chk (Option Span) :=
-  match binarySearch (s.spanInfos.map (·.first)) idx with
-  | .ok i => match Chk.index s.spanInfos i with
-    | .panic => .panic
-    | .ok l => .ok (if l.span != Span.default then some l.span else none)
-  | .error 0 => .ok none
-  | .error (i + 1) => match Chk.index s.spanInfos i with
-    | .panic => .panic
-    | .ok l => .ok (if l.span != Span.default then some l.span else none)
+  match lookupRun SpanInfo.first s.spanInfos idx with
+  | .panic => .panic
+  | .ok none => .ok none
+  | .ok (some l) => .ok l.span.nonDefault
 
 /-- the three ways an instruction gets appended -/
 inductive Add where
@@ -283,7 +293,7 @@ def window {α : Type} (lines : List α) (line : Option Nat) :
   let idx := (line.getD 1) - 1
   let skip := idx - 3
   let pre := (en.drop skip).take (min 3 idx)
-  match Chk.usize ((idx : Int) + 1) with
+  match usize (idx + 1) with
   | .panic => .panic
   | .ok idx1 => .ok (pre, en[idx]?, (en.drop idx1).take 3)
 
